@@ -182,8 +182,8 @@ Proof.
     + subst j. rewrite Nat.sub_diag. reflexivity.
     + rewrite !cget_ge by (simpl; lia). reflexivity.
   - rewrite app_length; simpl. eapply bal_of with (dc := (d + 1)%N) (dd := d).
-    + simpl. rewrite (fr_ctor _ _ _ _ F2). lia.
-    + simpl. rewrite (fr_dtor _ _ _ _ F2). lia.
+    + cbn [nctor ndtor set_size]. rewrite (fr_ctor _ _ _ _ F2). lia.
+    + cbn [nctor ndtor set_size]. rewrite (fr_dtor _ _ _ _ F2). lia.
     + lia.
   - unfold capacity; simpl. rewrite (fr_len _ _ _ _ F2). exact Hpb.
 Qed.
@@ -208,8 +208,8 @@ Proof.
     + subst j. rewrite Nat.sub_diag. reflexivity.
     + rewrite !cget_ge by (simpl; lia). reflexivity.
   - rewrite app_length; simpl. eapply bal_of with (dc := (d + 1)%N) (dd := d).
-    + simpl. rewrite (fr_ctor _ _ _ _ F2). lia.
-    + simpl. rewrite (fr_dtor _ _ _ _ F2). lia.
+    + cbn [nctor ndtor set_size]. rewrite (fr_ctor _ _ _ _ F2). lia.
+    + cbn [nctor ndtor set_size]. rewrite (fr_dtor _ _ _ _ F2). lia.
     + lia.
   - unfold capacity; simpl. rewrite (fr_len _ _ _ _ F2). exact Hpb.
 Qed.
@@ -231,8 +231,8 @@ Proof.
     repeat split; try congruence; try lia.
     intro j. rewrite G1, G, cget_firstn. bdestr. rewrite cget_ge; auto; lia.
   - rewrite removelast_firstn_len, firstn_length. eapply bal_of with (dc := 0%N) (dd := 1%N).
-    + simpl. rewrite (fr_ctor _ _ _ _ F1). lia.
-    + simpl. rewrite (fr_dtor _ _ _ _ F1). lia.
+    + cbn [nctor ndtor set_size]. rewrite (fr_ctor _ _ _ _ F1). lia.
+    + cbn [nctor ndtor set_size]. rewrite (fr_dtor _ _ _ _ F1). lia.
     + lia.
   - unfold samecap, capacity; simpl. apply (fr_len _ _ _ _ F1).
 Qed.
@@ -263,8 +263,8 @@ Proof.
     replace (j - (j - i)) with i by lia. pw.
     all: try (rewrite !cget_ge by lia; reflexivity).
   - rewrite Hl. eapply bal_of with (dc := N.of_nat (size s - j)) (dd := (N.of_nat (j - i) + N.of_nat (size s - j))%N).
-    + simpl. rewrite (fr_ctor _ _ _ _ F2), (fr_ctor _ _ _ _ F1). lia.
-    + simpl. rewrite (fr_dtor _ _ _ _ F2), (fr_dtor _ _ _ _ F1). lia.
+    + cbn [nctor ndtor set_size]. rewrite (fr_ctor _ _ _ _ F2), (fr_ctor _ _ _ _ F1). lia.
+    + cbn [nctor ndtor set_size]. rewrite (fr_dtor _ _ _ _ F2), (fr_dtor _ _ _ _ F1). lia.
     + lia.
   - unfold samecap, capacity; simpl. rewrite (fr_len _ _ _ _ F2), (fr_len _ _ _ _ F1). auto.
 Qed.
@@ -299,8 +299,8 @@ Proof.
     replace (S i - 1) with i by lia. pw.
     all: try (rewrite !cget_ge by lia; reflexivity).
   - rewrite Hl. eapply bal_of with (dc := N.of_nat (size s - S i)) (dd := (1 + N.of_nat (size s - S i))%N).
-    + simpl. rewrite (fr_ctor _ _ _ _ F2), (fr_ctor _ _ _ _ F1). lia.
-    + simpl. rewrite (fr_dtor _ _ _ _ F2), (fr_dtor _ _ _ _ F1). lia.
+    + cbn [nctor ndtor set_size]. rewrite (fr_ctor _ _ _ _ F2), (fr_ctor _ _ _ _ F1). lia.
+    + cbn [nctor ndtor set_size]. rewrite (fr_dtor _ _ _ _ F2), (fr_dtor _ _ _ _ F1). lia.
     + lia.
   - unfold samecap, capacity; simpl. rewrite (fr_len _ _ _ _ F2), (fr_len _ _ _ _ F1). auto.
 Qed.
@@ -318,7 +318,7 @@ Proof.
   { unfold xs'. rewrite firstn_length, length_upd. lia. }
   destruct (destroy_ok i s) as (s1 & E1 & F1 & W1 & G1); try lia.
   { apply (good_not_raw s xs); auto; lia. }
-  rewrite E1; simpl.
+  rewrite E1; cbn [bind].
   assert (Hx : forall k, cget xs' k = if k <? length xs - 1 then (if k =? i then cget xs (length xs - 1) else cget xs k) else Raw).
   { intro k. unfold xs'. rewrite cget_firstn, cget_upd. bdestr.
     destruct (cget_lt xs (length xs - 1)) as (v & Ev & Cv); [lia|]. rewrite Cv. f_equal.
@@ -336,7 +336,7 @@ Proof.
     destruct (move_one_ok i (size s - 1) v s1) as (s2 & E2 & F2 & W2 & G2); try lia.
     { rewrite (fr_len _ _ _ _ F1); lia. } { rewrite (fr_len _ _ _ _ F1); lia. }
     { rewrite G1, G, Hsz. bdestr. } { rewrite G1. bdestr. }
-    rewrite E2; simpl. eexists; split; [reflexivity|]. split; [|split].
+    rewrite E2; cbn [bind]. eexists; split; [reflexivity|]. split; [|split].
     + unfold good; simpl. rewrite Hl, (fr_len _ _ _ _ F2), (fr_len _ _ _ _ F1). repeat split; try congruence; try lia.
       intro k. rewrite G2, G1, G, Hx, Hsz. bdestr. rewrite cget_ge; auto; lia.
     + rewrite Hl. eapply bal_of with (dc := 1%N) (dd := 2%N); simpl.
